@@ -96,6 +96,7 @@ def stub(fn, repl):
 
 def clear_stubs():
     STUBS.clear()
+    _OVL.clear()
 
 
 # ---------------------------------------------------------------------------
@@ -107,6 +108,10 @@ def _m_len(x):
         return x.length()
     if type(x) is SByteArray and x._m is not None:
         return x._m.length()
+    if type(x) is dict and _OVL:
+        ov = _ovl(x)
+        if ov:
+            return len(x) + len(ov)
     return len(x)
 
 
@@ -501,8 +506,29 @@ def callm(o, name, *a, **k):
             if name in _SEQ_METHODS_SYM_ARG:
                 return getattr(lift(o), name)(*a, **k)
     elif to is dict:
-        if name == 'get' and a and type(a[0]) in PROXY_TYPES:
+        ov = _ovl(o)
+        if name == 'get' and a and (deepsym(a[0]) or ov):
             return dict_lookup(o, a[0], a[1] if len(a) > 1 else None, False)
+        if name == 'setdefault' and a and (deepsym(a[0]) or ov):
+            if contains(o, a[0]):
+                return dict_lookup(o, a[0])
+            dict_store(o, a[0], a[1] if len(a) > 1 else None)
+            return a[1] if len(a) > 1 else None
+        if name == '__setitem__' and len(a) == 2:
+            return dict_store(o, a[0], a[1])
+        if ov:
+            if name == 'items':
+                return list(o.items()) + list(ov)
+            if name == 'keys':
+                return list(o.keys()) + [kk for kk, _ in ov]
+            if name == 'values':
+                return list(o.values()) + [vv for _, vv in ov]
+            if name == 'clear':
+                del ov[:]
+                return o.clear()
+            if name in ('pop', 'popitem', 'update', 'copy', '__delitem__'):
+                raise Unsupported('dict.%s on a dictionary that holds '
+                                  'symbolic keys' % name)
     elif to is _re.Pattern:
         if name in ('match', 'search', 'sub', 'fullmatch') and anysym(a, k):
             return _pat_method(o, name, a, k)
@@ -639,10 +665,89 @@ def _key_candidates(d, key):
                 if all(lo <= c <= hi for c, (lo, hi) in zip(ke, ivals)):
                     out.append(kk)
         return out
+    if tk is tuple:
+        # a tuple with symbolic parts: concrete tuple keys of the same shape
+        out = []
+        for kk in d:
+            if type(kk) is tuple and len(kk) == len(key):
+                ok = True
+                for a, b in zip(key, kk):
+                    if type(a) not in PROXY_TYPES and not (
+                            type(a) is tuple and deepsym(a)):
+                        if type(a) is not type(b) or a != b:
+                            ok = False
+                            break
+                if ok:
+                    out.append(kk)
+        return out
     return None
 
 
+# Real dictionaries of the code under test (caches, memo tables, name maps)
+# cannot hold symbolic keys: hashing would have to fix the key's value.  Such
+# entries live in an overlay next to the dictionary - an ordered list of
+# (key, value) pairs compared with == (forking), distinct from each other and
+# from the concrete keys by construction.  The overlay belongs to one path.
+_OVL = {}
+
+
+def clear_overlays():
+    _OVL.clear()
+
+
+def _ovl(d, create=False):
+    e = _OVL.get(id(d))
+    if e is not None and e[0] is d:
+        return e[1]
+    if create:
+        pairs = []
+        _OVL[id(d)] = (d, pairs)
+        return pairs
+    return None
+
+
+def dict_store(d, key, value):
+    """d[key] = value for a real dict and a key that may be symbolic."""
+    pairs = _ovl(d)
+    if pairs:
+        for i, (kk, vv) in enumerate(pairs):
+            if kk == key:
+                pairs[i] = (kk, value)
+                return
+    if deepsym(key):
+        cands = _key_candidates(d, key)
+        if cands is None:
+            d[realise(key)] = value
+            return
+        for kk in cands:
+            if key == kk:
+                d[kk] = value
+                return
+        _ovl(d, True).append((key, value))
+        return
+    d[key] = value
+
+
+_MISSING = object()
+
+
+def _ovl_find(d, key):
+    pairs = _ovl(d)
+    if pairs:
+        for kk, vv in reversed(pairs):
+            if kk == key:
+                return vv
+    return _MISSING
+
+
 def dict_lookup(d, key, default=None, raise_missing=True):
+    hit = _ovl_find(d, key)
+    if hit is not _MISSING:
+        return hit
+    if not deepsym(key):
+        if raise_missing:
+            return d[key]
+        return d.get(key, default)
     cands = _key_candidates(d, key)
     if cands is None:
         return d[realise(key)] if raise_missing else d.get(realise(key),
@@ -710,6 +815,15 @@ def choose_by_eq(key, cands, values):
     return values[-1]
 
 
+def setitem_v(v, o, i):
+    """o[i] = v (value evaluated first, as in an assignment statement)."""
+    if core._cur is not None and type(o) is dict and (
+            deepsym(i) or (_OVL and _ovl(o))):
+        dict_store(o, i, v)
+        return
+    o[i] = v
+
+
 def getitem(o, i):
     if core._cur is None:
         return o[i]
@@ -726,6 +840,8 @@ def getitem(o, i):
         elif to is dict:
             return dict_lookup(o, i)
         return o[realise(i)]
+    if to is dict and ((_OVL and _ovl(o)) or (ti is tuple and deepsym(i))):
+        return dict_lookup(o, i)
     if ti is slice and to in (list, tuple, bytes, str, bytearray):
         if (type(i.start) in PROXY_TYPES or type(i.stop) in PROXY_TYPES or
                 type(i.step) in PROXY_TYPES):
@@ -794,6 +910,19 @@ def contains(c, x):
         if tc is MSeq:
             raise Unsupported('containment in symbolic-length sequence')
         return seq.contains(c, x)
+    if tc is dict and _OVL:
+        ov = _ovl(c)
+        if ov:
+            for kk, _ in ov:
+                if kk == x:
+                    return True
+            if not deepsym(x):
+                return x in c
+    if tc is dict and tx is tuple and deepsym(x):
+        for kk in (_key_candidates(c, x) or []):
+            if x == kk:
+                return True
+        return False
     if tx in PROXY_TYPES:
         if tc in (bytes, bytearray, str):
             return seq.contains(c, x)
